@@ -19,6 +19,8 @@ def run(ctx):
     srvfam.report_verdicts(ctx, vd, {"C04"}, bp, cr, "TestRandom")
     cov["traces_validated_against_impl"] += int(rrep.get("cases_total", 0) or 0)
     cov["gated_sessions"] = int(rrep.get("cases_total", 0) or 0)
+    cov["distinct_nontrivial"] += cov["gated_sessions"]
+    cov["evaluations"] += cov["gated_sessions"]
     cov["gated_trace_rejects"] = len(rj)
     return ctx.finish("model_checking", cov, assumptions=[
         "histories are sequential (one request at a time) for the table/refusal rules; the ordering of FidDestroy against the invalidating "
